@@ -513,7 +513,9 @@ def check_7z_bytes():
     from sharepoint2text.parsing.extractors.util.sevenzip import SevenZipReader
     for entries in member_sets():
         for label, _aname, build in LAYOUTS:
-            if not label.startswith("7z"):
+            if not label.startswith("7z") or (only_layouts(entries) is not None and not only_layouts(entries)(label)):
+                continue
+            if len(entries) > 50 and label not in BIG_SET_LAYOUTS:
                 continue
             data = build(entries)
             try:
